@@ -32,6 +32,7 @@ THEOREMS = [
     "Nix.C15.C15_float_bound",
     "Nix.C15.C15_float_bound_linear",
     "Nix.C15.C15_float_bound_origin_only",
+    "Nix.C15.C15_float_bound_inexact_raw",
     # the generated statement lists of the source (Generated/CalibShape.lean) compute the model functions
     "Nix.C15.C15_shape_read_data",
     "Nix.C15.C15_shape_view_read",
@@ -46,6 +47,7 @@ THEOREMS = [
     "Nix.C15.C15_refused_changes_nothing",
     "Nix.C15.C15_last_assignment_wins",
     "Nix.C15.C15_write_then_read",
+    "Nix.C15.C15_link_values_raw",
 ]
 ASSUMPTIONS = [
     "values that are doubles in Python are exact rationals in the model: astype(double) is the identity and the "
@@ -54,8 +56,15 @@ ASSUMPTIONS = [
     "sum|c_k|((|y|+d)^k-|y|^k) + 4*(2n+1)*2^-53*sum|c_k|(|y|+d)^k, d = 2^-53|x| if x is not a double; for d = 0 that "
     "bound is implied by theorem C15_float_bound_linear under the standard model of IEEE arithmetic (each operation "
     "returns exact*(1+delta), |delta| <= 2^-53, no overflow/underflow)",
-    "coefficients / origins are finite real numbers (NaN, inf, complex origins, nested or non-numeric coefficient "
-    "lists are outside the model and the generators)",
+    "coefficients / origins are finite real numbers in the model (NaN / inf coefficients and complex origins are "
+    "outside model and generators; nested, 2-D, text and complex coefficient values are modelled as refused); stored "
+    "elements that are NaN, +-inf, -0.0, subnormal or huge are outside the rational model and are exercised by the "
+    "implementation-side oracle only",
+    "ticks of a range dimension linked to the array (DimensionLink.values) read the HDF5 dataset directly: they are "
+    "raw values whatever the calibration (theorem C15_link_values_raw; the property's read paths do not include it)",
+    "several Python objects for one array (a second kept object, a fresh one per operation, views made from any of "
+    "them) read and write the same model state: nixio keeps no calibration state per object (C02's handle-state "
+    "translator proves that for every entity class; here the correspondence exercises it)",
     "the h5py hyperslab read is the stand-in `select`+`gather` (integer and slice items, row-major); Ellipsis, "
     "index lists and masks are exercised by the implementation-side oracle only",
     "without stored coefficients a non-zero origin calibrates with the documented default polynomial {0, 1} (x - o)",
@@ -63,7 +72,11 @@ ASSUMPTIONS = [
     "(computing it is C08's subject)",
 ]
 TRUSTED_EXTRA = ["numpy.polynomial.polynomial.polyval is modelled as its documented Horner loop; h5py selection "
-                 "semantics as a row-major gather"]
+                 "semantics as a row-major gather",
+                 "harness/extract/calibshape.py (ast): renders the statement lists of DataArray._read_data, "
+                 "util.apply_polynomial, DataView._read_data, the calibration setters / getters and the DataSet entry "
+                 "points; the meaning of each statement is the interpreter in Pure/CalibPrim.lean; H5Group.write_data "
+                 "(converts before it resizes), get_data, set_attr / get_attr and np.ndim are stand-ins"]
 
 # (F) anchor fingerprints — budget steering only (DESIGN 2.3): a changed hash is neither an alarm nor a tie,
 # it doubles the quick correspondence budget
@@ -347,6 +360,14 @@ class Session:
         if self.tw is not None:
             self.tw = self.block.data_arrays["twin"]
 
+    def link_ticks(self, index):
+        """a range dimension of another array linked to the array under test: its ticks"""
+        self.ntag += 1
+        other = self.block.create_data_array("lk%d" % self.ntag, "c15", data=np.zeros(3))
+        dim = other.append_range_dimension(ticks=[1.0, 2.0, 3.0])
+        dim.link_data_array(self.da, [int(i) for i in index])
+        return dim.ticks
+
     def raw_h5(self):
         """stored elements read with h5py, bypassing nixio's read path"""
         return self.da._h5group.group["data"][()]
@@ -476,6 +497,8 @@ def run_impl(ctx, case):
                     outs.append({"ok": None if o is None else rat_or_special(o)})
                 elif name == "raw":
                     outs.append({"ok": canon_array(s.raw_h5())})
+                elif name == "ticks":
+                    outs.append({"ok": [rat_or_special(t) for t in s.link_ticks(op[1])]})
                 elif name == "write":
                     dt = np.dtype(case["dtype"])
                     vals = [frac(v) for v in op[1]]
@@ -724,8 +747,17 @@ def gen_case(rng, profile):
             ops.append(["coeffs", hnd()])
         elif r < 0.89:
             ops.append(["origin", hnd()])
-        elif r < 0.94:
+        elif r < 0.92:
             ops.append(["raw"])
+        elif r < 0.94:                          # ticks of a range dimension linked to the array
+            idx = [rng.randrange(d) if d else 0 for d in shape]
+            idx[rng.randrange(rank)] = -1
+            q = rng.random()
+            if q < 0.1:
+                idx[rng.randrange(rank)] = rng.choice([-1, -2, shape[0] + 1])
+            elif q < 0.15:
+                idx = idx + [0]
+            ops.append(["ticks", idx])
         elif r < 0.97:
             ops.append(["write", [rat(gen_raw(rng, dtype, profile)) for _ in range(n)]])
         else:
@@ -840,7 +872,9 @@ def correspondence(ctx):
     return {"evaluations": nops, "distinct_nontrivial": len(seen),
             "rule": "one evaluation = one operation of a generated history (set/clear of the two attributes, reads "
                     "through DataArray[...], np.array, DataView via get_slice / constructor / Tag / MultiTag / "
-                    "feature_data, getters, raw h5py dump, whole write, reopen) executed on a real HDF5 file and on "
+                    "feature_data (tagged / indexed / untagged), each through the first, a second kept or a fresh "
+                    "array object, getters, raw h5py dump, ticks of a linked range dimension, whole write, reopen) "
+                    "executed on a real HDF5 file and on "
                     "the Lean model; non-trivial = a read of a non-float64 array that came back calibrated "
                     "(float64, non-empty), distinct by (dtype, shape, op, calibration, values)",
             "samples": samples,
@@ -1222,6 +1256,131 @@ def gen_oracle_case(rng, profile):
     return c
 
 
+# -- special float values: NaN, +-inf, -0.0, subnormal and huge elements (outside the rational model) --------------
+
+SPECIALS = ["nan", "inf", "-inf", "-0.0", "5e-324", "1.7e308", "-1.7e308", "3.4e38"]
+
+
+def special_case(rng):
+    dtype = rng.choice(["float64", "float64", "float32"])
+    n = rng.randint(2, 6)
+    raw = [rng.choice(SPECIALS) if rng.random() < 0.5 else repr(float(rng.randint(-8, 8)) / 2) for _ in range(n)]
+    if not any(r in SPECIALS for r in raw):
+        raw[rng.randrange(n)] = rng.choice(SPECIALS[:3])
+    cs = [float(rng.choice([0, 1, -1, 2, 0.5, 3])) for _ in range(rng.choice([0, 0, 1, 2, 2, 3]))]
+    o = rng.choice([None, 0.0, 1.0, -2.5])
+    ix = rng.choice([None, [[None, None, None]], [rng.randrange(n)], [[0, n, 2]], [[1, None, None]]])
+    return {"special": {"dtype": dtype, "raw": raw, "coeffs": cs, "origin": o, "index": ix,
+                        "via": rng.choice(["array", "view", "tag"])}}
+
+
+def oracle_special(ctx, case):
+    """what the property says about elements that are no finite numbers: without calibration they come back
+    bit for bit; with calibration a NaN element gives NaN, an infinite one gives +-inf under an origin-only
+    calibration, and the finite neighbours follow the polynomial as ever; the stored values stay as they are"""
+    import nixio
+    sp = case["special"]
+    Session._count += 1
+    path = ctx.tmpfile("c15s-%d-%d.nix" % (os.getpid(), Session._count))
+    dt = np.dtype(sp["dtype"])
+    with warnings.catch_warnings():
+        warnings.simplefilter("ignore")
+        data = np.array([float(r) for r in sp["raw"]], dtype=float).astype(dt)
+    f = nixio.File.open(path, nixio.FileMode.Overwrite)
+    fails = []
+    evals = 0
+    try:
+        with warnings.catch_warnings():
+            warnings.simplefilter("ignore")
+            b = f.create_block("blk", "c15")
+            da = b.create_data_array("arr", "c15", dtype=dt, data=data)
+            da.append_sampled_dimension(1.0)
+            n = len(data)
+            if sp["via"] == "view":
+                obj = da.get_slice([0], [n])
+            elif sp["via"] == "tag":
+                tag = b.create_tag("t", "c15", [0.0])
+                tag.extent = [float(n)]
+                tag.references.append(da)
+                obj = tag.tagged_data(0)
+            else:
+                obj = da
+            ix = np_index(sp["index"])
+
+            def same_bits(a, bb):
+                a, bb = np.asarray(a), np.asarray(bb)
+                return a.dtype == bb.dtype and a.shape == bb.shape and a.tobytes() == bb.tobytes()
+            # 1. uncalibrated: identical
+            got = obj[ix]
+            evals += 1
+            want = np.atleast_1d(data[ix])
+            if not same_bits(np.atleast_1d(got), want):
+                fails.append(Failure("uncalibrated read of non-finite / extreme elements is not the stored values",
+                                     case, canon_array(got), canon_array(want), "DataArray._read_data"))
+            # 2. calibrated
+            if sp["coeffs"]:
+                da.polynom_coefficients = sp["coeffs"]
+            if sp["origin"] is not None:
+                da.expansion_origin = sp["origin"]
+            cs = [Fraction(c) for c in sp["coeffs"]]
+            o = Fraction(sp["origin"]) if sp["origin"] is not None else Fraction(0)
+            calibrated = bool(cs) or o != 0
+            got = np.atleast_1d(np.asarray(obj[ix]))
+            evals += 1
+            sub = want
+            if calibrated:
+                if got.dtype != np.float64 or got.shape != sub.shape:
+                    fails.append(Failure("calibrated read: wrong element type or shape", case,
+                                         [str(got.dtype), list(got.shape)], ["float64", list(sub.shape)],
+                                         "DataArray._read_data"))
+                else:
+                    for j, (g, x) in enumerate(zip(got.ravel(), sub.ravel())):
+                        x = float(x)
+                        bad = None
+                        if x != x:
+                            if g == g:
+                                bad = "NaN"
+                        elif x in (float("inf"), float("-inf")):
+                            if not cs and g != x:
+                                bad = "x - o of an infinite element (the same infinity)"
+                        else:
+                            fx = Fraction(x)
+                            gv = np_to_frac(g)
+                            want_v = poly_exact(cs, o, fx)
+                            if abs(want_v) < Fraction(10) ** 300:
+                                ok, _ = value_ok(gv, want_v, cs, o, fx)
+                                if not ok:
+                                    bad = repr(float(want_v))
+                        if bad is not None:
+                            fails.append(Failure("calibrated read: element %d (stored %r) is not %s" % (j, x, bad),
+                                                 case, repr(float(g)), bad, "DataArray._read_data"))
+                            break
+            elif not same_bits(got, want):
+                fails.append(Failure("read with an empty calibration is not the stored values", case,
+                                     canon_array(got), canon_array(want), "DataArray._read_data"))
+            # 3. stored values untouched, clearing restores
+            h5 = da._h5group.group["data"][()]
+            evals += 1
+            if not same_bits(h5, data):
+                fails.append(Failure("stored raw values changed by a calibration operation", case, canon_array(h5),
+                                     canon_array(data), "DataArray.polynom_coefficients / expansion_origin"))
+            da.polynom_coefficients = None
+            da.expansion_origin = None
+            if not same_bits(np.atleast_1d(obj[ix]), want):
+                fails.append(Failure("read after clearing the calibration is not the stored values", case,
+                                     canon_array(obj[ix]), canon_array(want), "DataArray._read_data"))
+    finally:
+        try:
+            f.close()
+        except Exception:
+            pass
+        try:
+            os.remove(path)
+        except OSError:
+            pass
+    return fails[:1], evals
+
+
 def oracle(ctx, broken, hints):
     rng = ctx.rng
     n = 4000 if (broken and not ctx.quick()) else 1200 if broken else ctx.budget(600, 5000)
@@ -1236,6 +1395,8 @@ def oracle(ctx, broken, hints):
             yield c
         for k in range(n):
             yield gen_oracle_case(rng, "exact" if k % 4 else "float" if k % 8 else "big")
+            if k % 10 == 0:
+                yield special_case(rng)
 
     failures = []
     evals = 0
@@ -1243,7 +1404,7 @@ def oracle(ctx, broken, hints):
     seen = set()
     for c in all_cases():
         ncases += 1
-        fs, ev = oracle_case(ctx, c)
+        fs, ev = oracle_special(ctx, c) if "special" in c else oracle_case(ctx, c)
         evals += ev
         for f in fs:
             key = (f.what, core.canon(f.input))
@@ -1263,6 +1424,9 @@ def matches_known(entry, failure):
 def replay_failure(ctx, fj):
     inp = fj["input"]
     case = inp["case"] if isinstance(inp, dict) and "case" in inp else inp
+    if isinstance(case, dict) and "special" in case:
+        fs, _ = oracle_special(ctx, case)
+        return fs[0] if fs else None
     fs, _ = oracle_case(ctx, case)
     return fs[0] if fs else None
 
@@ -1270,28 +1434,37 @@ def replay_failure(ctx, fj):
 READY = True
 MANIFEST = {
     "level_text": "Kernel-checked theorems over a Lean model of DataArray._read_data, util.apply_polynomial (NumPy's "
-                  "polyval loop), the two calibration setters (validation, None handling) and DataView reads, in exact "
-                  "rational arithmetic: every read returns sum c_k (x-o)^k of exactly the selected raw elements "
-                  "(Horner loop = monomial sum, induction over the coefficient list; default polynomial {0,1} for an "
-                  "origin without coefficients); reading through any index expression equals selecting from the "
-                  "calibrated whole read (gather/map commute for every list of positions; the whole read is the "
-                  "identity gather; selected positions lie inside the array, so a read fails only with the "
-                  "selection's refusal); every view / tag read is a _read_data of the parent; no history of "
-                  "set/change/clear operations, accepted or refused, interleaved with reads and reopening, changes "
-                  "the stored elements, shape or element type (induction over the history; stored elements = what "
-                  "the writes alone produce); without calibration every read is the raw read in the stored type and "
-                  "clearing restores it after any history. A separate theorem bounds the float evaluation under the "
-                  "standard IEEE model by ((1+u)^(3n-2)-1) * sum|c_k||x-o|^k. The model is tied to the code by "
-                  "differential runs on real HDF5 files over all numeric dtypes, coefficient lists 0-5, origins "
-                  "None/0/non-zero and all read paths (array, slices, single elements, np.array, DataView via "
-                  "get_slice / Tag / MultiTag / feature_data), plus a NumPy/Fraction oracle.",
+                  "polyval loop), the two calibration setters (validation, None handling, invalid values) and DataView "
+                  "reads, in exact rational arithmetic. The statement lists of these functions are REGENERATED from "
+                  "the source on every run (Generated/CalibShape.lean) and proved to compute the model functions "
+                  "(C15_shape_read_data, _view_read, _setters, _entry_points), so the theorems speak about the code as "
+                  "it stands: every read returns sum c_k (x-o)^k of exactly the selected raw elements as float64 "
+                  "(Horner loop = monomial sum; default polynomial {0,1} for an origin without coefficients; zero, "
+                  "constant and identity polynomials; appended zero coefficients change nothing); reading through any "
+                  "index expression equals selecting from the calibrated whole read (gather/map commute for every list "
+                  "of positions; a read fails only with the selection's refusal); every view / tag / feature read is a "
+                  "_read_data of the parent; result element type float64 iff calibrated, for every stored type; no "
+                  "history of set/change/clear operations, accepted or refused, interleaved with reads, writes and "
+                  "reopening, changes the stored elements, shape or element type (induction over the history); a "
+                  "refused operation changes nothing at all; only the last assignment counts; without calibration every "
+                  "read is the raw read in the stored type and clearing restores it after any history; ticks of a "
+                  "linked range dimension are raw values. Separate theorems bound the float evaluation under the "
+                  "standard IEEE model by ((1+u)^(3n-2)-1) * sum|c_k||x-o|^k, with the extra shift term for stored "
+                  "64-bit integers that are not doubles. The model is tied to the code by the translator and by "
+                  "differential runs on real HDF5 files over all numeric dtypes, coefficient lists 0-5, invalid "
+                  "values, origins None/0/non-zero, several live objects per array and all read paths (array, slices, "
+                  "single elements, np.array, DataView via get_slice / Tag / MultiTag / feature_data tagged, indexed, "
+                  "untagged), plus a NumPy/Fraction oracle (incl. NaN/inf/extreme elements, read_direct, iteration, "
+                  "index lists, masks, Ellipsis).",
     "level_note": "Partial aspect: floating-point rounding of the polynomial — the read-path model is exact; the "
                   "correspondence demands equality where every float operation on the path is exact and the proved "
-                  "bound (standard model: each operation exact*(1+delta), |delta|<=2^-53, no overflow/underflow; x, o "
-                  "doubles) otherwise. NaN/inf/complex origins and non-numeric coefficient lists are outside the "
-                  "model. Trusted: Lean kernel; axioms propext/Classical.choice/Quot.sound; the stand-ins for h5py "
-                  "hyperslab selection and numpy polyval; the correspondence harness and its generators.",
-    "technique": "Lean 4 proof (induction over coefficient lists, index shapes and operation histories; real-closed "
-                 "arithmetic for the rounding bound) with differential correspondence and a NumPy/Fraction property "
-                 "oracle",
+                  "bound (standard model: each operation exact*(1+delta), |delta|<=2^-53, no overflow/underflow) "
+                  "otherwise. NaN/inf coefficients and complex origins are outside the model. Trusted: Lean kernel; "
+                  "axioms propext/Classical.choice/Quot.sound; the ast translator and the statement interpreters; the "
+                  "stand-ins for h5py hyperslab selection, H5Group.write_data/get_data/set_attr and numpy polyval; the "
+                  "correspondence harness and its generators.",
+    "technique": "Lean 4 proof (source-to-Lean translation of the read path's statement lists with proved "
+                 "interpreter/model equivalence; induction over coefficient lists, index shapes and operation "
+                 "histories; ordered-field arithmetic for the rounding bounds) with differential correspondence and a "
+                 "NumPy/Fraction property oracle",
 }
